@@ -3,6 +3,7 @@ package main
 // tmplhelp.go: text/template and shell-context helpers (primitive P8).
 
 import (
+	"golang.org/x/tools/go/packages"
 	"fmt"
 	"go/ast"
 	"os"
@@ -203,9 +204,22 @@ func shellContexts(toks []tTok) map[int]shellCtx {
 // repository on every run.
 func (p *Prog) embeddedFile(pkgSuffix, varName string) (string, string, error) {
 	pk := p.Pkg(pkgSuffix)
+	if nil == pk || nil == pk.Types.Scope().Lookup(varName) {
+		/* Moved (with its file) to another package of the module? */
+		if o := lookupObj(pk, varName); nil != o && nil != o.Pkg() {
+			if q := p.ByPath[o.Pkg().Path()]; nil != q {
+				pk = q
+			}
+		}
+	}
 	if nil == pk {
 		return "", "", fmt.Errorf("package %s not found", pkgSuffix)
 	}
+	return p.embeddedFileIn(pk, varName)
+}
+
+// embeddedFileIn: the same, in a given package.
+func (p *Prog) embeddedFileIn(pk *packages.Package, varName string) (string, string, error) {
 	for _, f := range pk.Syntax {
 		for _, d := range f.Decls {
 			gd, ok := d.(*ast.GenDecl)
